@@ -298,7 +298,7 @@ impl Property for C16 {
         "C16"
     }
     fn rule(&self) -> &'static str {
-        "sweep = every ordered pair of intervals over the endpoint classes {-inf, -1e6, -7.25, -1, -0.5, -1e-9, -0, 0, 1e-9, 0.5, 1, 3, 1234.5, 1e6, +inf} x {+, *, ^0..8, scaling, shift} x placed points (ends, 0, interior, far points); random = intervals with random reals | function (degree<=4, any representation, <=4 variables) x box (finite, half-infinite, unbounded, degenerate, sign-crossing, variables missing from the box) x points on corners/faces/interior | as_integer_bound (also finite endpoints up to 1.5e300) | content_factor of rational-coefficient functions (denominators<=60); \
+        "sweep = every ordered pair of intervals over the endpoint classes {-inf, -1e6, -7.25, -1, -0.5, -1e-9, -0, 0, 1e-9, 0.5, 1, 3, 1234.5, 1e6, +inf} x {+, *, ^0..8, scaling, shift} x placed points (ends, 0, interior, far points), compound-assignment forms, set_lower / set_upper; random = intervals with random reals | function (degree<=4, any representation, <=4 variables with ids from the whole u64 range, also scaled below machine epsilon) x box (finite, half-infinite, unbounded, degenerate, sign-crossing, variables missing from the box) x points on corners/faces/interior | as_integer_bound (also finite endpoints up to 1.5e300) | content_factor of rational-coefficient functions (denominators<=60); \
          oracle = exact rational pointwise values, and for functions that are affine after merging the exact range over the box (attained at corners; infinite on unbounded sides); non-trivial = an operand with an infinite end or a sign-crossing interval, or exponent>=4; distinct = sha256(case)"
     }
     fn required_labels(&self) -> Vec<String> {
